@@ -22,21 +22,25 @@ Atts(t) == [j \in 1..Len(t.atts) |->
               IF t.mode = "sym" THEN (IF t.atts[j].complete THEN Observe(t.atts[j].raw)
                                       ELSE [Observe(t.atts[j].raw) EXCEPT !.complete = FALSE])
               ELSE t.atts[j]]
-\* in "sym" mode the bytes are also compared with the model's canonical serialisation of each attempt
 Which(t, atts) == IF SameRun({}, t.sc, atts, t.outcome) THEN "design"
                   ELSE IF SameRun({"D3"}, t.sc, atts, t.outcome) THEN "D3"
                   ELSE IF SameRun({"D4"}, t.sc, atts, t.outcome) THEN "D4"
                   ELSE IF SameRun({"D3", "D4"}, t.sc, atts, t.outcome) THEN "D3+D4"
                   ELSE "neither"
+DOf(w) == CASE w = "design" -> {} [] w = "D3" -> {"D3"} [] w = "D4" -> {"D4"} [] w = "D3+D4" -> {"D3", "D4"} [] OTHER -> {}
+\* "sym" mode: are the recorded bytes the canonical serialisation of the matching model run?
+Exact(t, w) == IF t.mode # "sym" \/ w = "neither" THEN "n/a"
+               ELSE IF SameBytes(DOf(w), t.sc, [j \in 1..Len(t.atts) |-> t.atts[j].raw]) THEN "exact" ELSE "inexact"
 Class(t, j) == IF j = 0 THEN "-"
                ELSE (IF InClassD3(t.sc, j) THEN "D3" ELSE "") \o (IF InClassD4(t.sc, j) THEN "D4" ELSE "")
 
 TNext == /\ tid <= Len(Traces)
          /\ LET t == Traces[tid]
                 atts == Atts(t)
-                v == Verdict(t.sc, atts) IN
+                v == Verdict(t.sc, atts)
+                w == Which(t, atts) IN
             PrintT("VERDICT|" \o ToString(tid) \o "|" \o ToString(v.at) \o "|" \o v.clause \o "|" \o Class(t, v.at)
-                   \o "|" \o Which(t, atts))
+                   \o "|" \o w \o "|" \o Exact(t, w))
          /\ tid' = tid + 1
 TSpec == TInit /\ [][TNext]_tid
 =============================================================================
